@@ -34,10 +34,10 @@ def run_one(x):
         lines[ln] = indent + x["new"] if x["new"] else ""
         open(fp, "w").write("\n".join(lines))
         env = dict(os.environ, GOFLAGS="-mod=mod", GOPROXY="off")
-        env.pop("GOTOOLCHAIN", None)
+        pass
         pkgs = [pkg_of(x["file"])]
-        if pkgs[0] == "./z/":
-            pkgs.append(".")  # the cache uses z
+        if pkgs[0] == "./z/" and x["file"] in ("z/z.go", "z/bbloom.go", "z/rtutil.go", "z/histogram.go"):
+            pkgs.append(".")  # the cache uses these
         try:
             r = subprocess.run(["go", "test", "-vet=off", "-count=1", "-timeout", "400s"] + pkgs, cwd=dst, capture_output=True, text=True, env=env, timeout=900)
         except subprocess.TimeoutExpired:
